@@ -33,7 +33,7 @@ CrossShapes == {"crossName", "crossB", "crossPBZero", "crossSBZero", "crossABZer
 
 (* which leaf types a shape's slot accepts *)
 Accepts(s) ==
-    CASE s \in {"leaf", "slice2", "array2", "mapS", "emptySlice", "nilSlice", "emptyMap", "nilMap", "sliceOfSlice", "mapOfSlice"} -> LeafTypes
+    CASE s \in {"leaf", "slice2", "array2", "mapS", "ptrSlice", "ptrMap", "emptySlice", "nilSlice", "emptyMap", "nilMap", "sliceOfSlice", "mapOfSlice"} -> LeafTypes
       [] s \in {"ptr", "sliceOfPtr", "mapOfPtr"} -> Scalars            \* single-level pointers to scalars and named scalars
       [] s = "ptrStruct"  -> {"A", "B"}                                 \* ... and to (possibly zero-valued) structs
       [] s = "mapKey"     -> {"int", "int64", "uint64", "int8", "AI", "bool", "string", "AS", "float64", "rune", "uint8"}      \* the leaf is the map KEY (integer keys: with both neighbours)
